@@ -1,6 +1,6 @@
 # replay of a solver counterexample against the real library (exit 1 = reproduces)
 import sys, warnings
-sys.path.insert(0, '/tmp/sr/C06-m3')
+sys.path.insert(0, '/tmp/sr/C06-m5')
 warnings.simplefilter('ignore')
 import numpy as np
 from svgpathtools import *
@@ -38,7 +38,7 @@ def derivF(ps, t, k):
 
 import svgpathtools.path as P
 P._quad_available = True
-ps = [0j, (2+0j), 0j, (1+0j)]; t0 = 0.0; t1 = 0.5
+ps = [0j, (0.75+0j), (0.96875+0j), (1+0j)]; t0 = 0.0; t1 = 0.25
 seg = CubicBezier(*ps)
 got = seg.length(t0, t1)
 N = 1 << 14
